@@ -112,6 +112,14 @@ def replay_case(c):
                           DF.add_computed_field(target='z', operation=a['cop'], source=srcs, **kw)).datastream()
                 out = [[dict(r) for r in res] for res in ds.res_iter][0]
                 fields = [f['name'] for f in ds.dp.descriptor['resources'][0]['schema']['fields']]
+                chain_out = None
+                if a['cop'] in ('sum', 'min', 'max', 'multiply', 'join', 'format'):
+                    # ONE call, two specifications: the second one uses the first one's target ("computed values equal the documented
+                    # operation applied to that row": the row as it stands when the specification is reached)
+                    second = dict(target='z2', operation='join', source=['z', srcs[0]], with_='|')
+                    ds2 = Flow(tuple_source([('t', [(f, 'integer') for f in schema], [dict(row)])]),
+                               DF.add_computed_field([dict(target='z', operation=a['cop'], source=srcs, **kw), second])).datastream()
+                    chain_out = [[dict(r) for r in res] for res in ds2.res_iter][0][0]
             else:
                 # a second replaced field after the first: it is processed whatever the first one holds (a null included)
                 row = dict(a=py(c['arg']), ab=1, b=2, c='bxb')
@@ -152,6 +160,11 @@ def replay_case(c):
                 return dict(ok=False, why='the constant field does not hold the constant', got=repr(r['z']), want=repr(cval))
         elif norm_real(r['z']) != norm_spec(c['result'][0]):
             return dict(ok=False, why='computed value differs', got=repr(r['z']), want=c['result'][0])
+        if chain_out is not None:
+            src0 = [schema[i - 1] for i in c['arg']['src']][0]
+            want2 = '|'.join(str(x) for x in (r['z'], chain_out.get(src0)) if x is not None)
+            if chain_out.get('z') != r['z'] or chain_out.get('z2') != want2:
+                return dict(ok=False, why='a later specification of the same call does not see the field computed before it', got=chain_out, want_z2=want2)
         return dict(ok=True)
     r = out[0]
     if norm_real(r['a']) != norm_spec(c['result'][0]) or r['ab'] != 1 or r['b'] != 2:
